@@ -24,3 +24,16 @@ func TestRead(t *testing.T) {
 	}()
 	simcheck.Explore(t, c, prop, GenScenario(prop == "C12"), func(s Scenario) *simcheck.RunInfo { return RunRead(t, s) })
 }
+
+// TestC14 explores translation determinism and plan re-execution.
+func TestC14(t *testing.T) {
+	c := simcheck.NewCollector("read-c14")
+	defer c.Flush()
+	defer func() {
+		if r := recover(); r != nil {
+			c.HarnessError(fmt.Sprint(r))
+			t.Errorf("HARNESS-ERROR %v", r)
+		}
+	}()
+	simcheck.Explore(t, c, "C14", genC14, func(s C14Scenario) *simcheck.RunInfo { return RunC14(t, s) })
+}
